@@ -384,8 +384,62 @@ func (r *Reach) eval(v ssa.Value, st *state) AV {
 			return a
 		}
 		return AVTop
+	case *ssa.Call:
+		if f := x.Call.StaticCallee(); f != nil && f.Signature.Results().Len() == 1 && AlwaysNonNil(f, 0) {
+			return AVNonNil
+		}
+		return AVTop
+	case *ssa.Extract:
+		if call, ok := x.Tuple.(*ssa.Call); ok {
+			if f := call.Call.StaticCallee(); f != nil && AlwaysNonNil(f, x.Index) {
+				return AVNonNil
+			}
+		}
+		return AVTop
 	}
 	return AVTop
+}
+
+var (
+	nonNilMemo = map[[2]any]bool{}
+	nonNilBusy = map[*ssa.Function]bool{}
+)
+
+// AlwaysNonNil reports whether result #idx of fn is non-nil on every return
+// (interprocedural summary, memoised; recursion and unknown bodies give false).
+func AlwaysNonNil(fn *ssa.Function, idx int) bool {
+	if fn == nil || fn.Blocks == nil || idx >= fn.Signature.Results().Len() {
+		return false
+	}
+	if zeroAV(fn.Signature.Results().At(idx).Type()).K != Nil {
+		return false
+	}
+	key := [2]any{fn, idx}
+	if v, ok := nonNilMemo[key]; ok {
+		return v
+	}
+	if nonNilBusy[fn] || len(nonNilBusy) > 6 {
+		return false
+	}
+	nonNilBusy[fn] = true
+	defer delete(nonNilBusy, fn)
+	r := Analyze(fn, ReachOpts{})
+	ok, n := true, 0
+	for _, b := range fn.Blocks {
+		for _, in := range b.Instrs {
+			ret, isRet := in.(*ssa.Return)
+			if !isRet || !r.Reachable(ret) || idx >= len(ret.Results) {
+				continue
+			}
+			n++
+			if r.FactAt(ret, ret.Results[idx], false).K != NonNil {
+				ok = false
+			}
+		}
+	}
+	res := ok && n > 0
+	nonNilMemo[key] = res
+	return res
 }
 
 func (r *Reach) evalBin(x *ssa.BinOp, st *state) AV {
